@@ -139,6 +139,10 @@ func (s *sim) observe(r *simReplica) {
 		if r.mem.Removed[r.id] && rf.state == leader {
 			s.fail("removed-replica-leads", "replica %d applied its removal but is leader", r.id)
 		}
+		if r.mem.Removed[r.id] && rf.state != leader && (r.lingering || r.lingered) && rf.term > r.termAtRemoval {
+			// the replica applied its own removal and started a campaign afterwards
+			s.fail("removed-replica-campaigns", "replica %d applied its own removal at term %d and is %s in term %d", r.id, r.termAtRemoval, rf.state, rf.term)
+		}
 	}
 	if r.kind == kWitness && rf.state != witness {
 		s.fail("witness-left-witness-state", "witness %d in state %s", r.id, rf.state)
